@@ -481,6 +481,8 @@ def rhs_variants(kv):
     out = ["number", "ndarray"]
     if "list" not in kv:
         out += ["array-same", "array-permuted", "array-permuted-extra", "array-missing", "array-other-dim"]
+        if sum(1 for k in kv if k in ("absent", "subset")) >= 3:
+            out += ["array-rotated", "array-rotated-back"]      # cyclic orders: a permutation that is not its own inverse
     return out
 
 
@@ -515,6 +517,10 @@ def case_setitem(prog, A, kv, rhs, key_style="letter", subset_pos=None, taint_mo
         rl = list(reversed(letters)) + extra if rhs in ("array-permuted-extra", "array-permuted") else list(letters)
         if rhs == "array-permuted" and len(letters) < 2:
             return None
+        if rhs in ("array-rotated", "array-rotated-back"):
+            if len(letters) < 3:
+                return None
+            rl = list(letters[1:]) + list(letters[:1]) if rhs == "array-rotated" else list(letters[-1:]) + list(letters[:-1])
         if rhs == "array-missing":
             if not letters:
                 return None
@@ -690,6 +696,25 @@ def case_tuple_key_set(prog, A, l, taint_mode="abort"):
     return finish(case, w)
 
 
+def case_tuple_key_interleaved(prog, A, l, other, taint_mode="abort"):
+    """x[i1, j, i2] = k: two items of dimension l with an item of another dimension BETWEEN them in the tuple"""
+    w = World(prog, taint_mode)
+    case = Case("setitem", "__setitem__", "FlodymArray.__setitem__", {"op": "x[i1, j, i2] = k", "x_dims": list(A), "two_items_of": l, "item_between_from": other})
+    x = w.array("x", A)
+    X = leaf_term("x", A, w)
+    snaps = w.snap(x)
+    its = [w.items(l)[-1], w.items(l)[1]]
+    j = w.items(other)[0]
+    kind, r = run_guarded(lambda: w.it.call_method(x, "__setitem__", (its[0], j, its[1]), SymScalar(("sym", "k"))))
+    exp = ("upd", X, tuple(sorted([(l, ("v", vkey(its))), (other, ("c", j))])), ("sym", "k"))
+    if kind != "ok":
+        case.v("result", False, f"assignment ended with {kind}: {describe(r, w)}")
+    else:
+        judge_array(case, w, "ok", x, tuple(A), full_axes(w, A), exp, what="target after assignment")
+    common_checks(case, w, [x], snaps, kind, r, inplace_target=x)
+    return finish(case, w)
+
+
 def case_split(prog, A, l, taint_mode="abort"):
     w = World(prog, taint_mode)
     case = Case("split", "split", "FlodymArray.split", {"op": "split", "x_dims": list(A), "letter": l})
@@ -824,6 +849,9 @@ def misc_index_cases(prog, taint_mode="abort"):
                 yield lambda A=A, which=which: case_tuple_key(prog, A, which, taint_mode)
         for l in A:
             yield lambda A=A, l=l: case_tuple_key_set(prog, A, l, taint_mode)
+            for other in A:
+                if other != l:
+                    yield lambda A=A, l=l, other=other: case_tuple_key_interleaved(prog, A, l, other, taint_mode)
             yield lambda A=A, l=l: case_split(prog, A, l, taint_mode)
         yield lambda A=A: case_stack(prog, A, taint_mode=taint_mode)
 
